@@ -115,6 +115,25 @@ func (atxn *AllocTxn) NAllocated() uint64 {
 	return uint64(len(atxn.allocInums)) + uint64(len(atxn.allocBnums))
 }
 
+// Number of bitmap blocks that PreCommit will write for this transaction.
+// They take room in the log on top of the blocks that are already dirty.
+func (atxn *AllocTxn) NBitmapBlocks() uint64 {
+	blks := make(map[common.Bnum]bool)
+	for _, inum := range atxn.allocInums {
+		blks[atxn.Super.BitmapInodeStart()+common.Bnum(uint64(inum)/common.NBITBLOCK)] = true
+	}
+	for _, inum := range atxn.freeInums {
+		blks[atxn.Super.BitmapInodeStart()+common.Bnum(uint64(inum)/common.NBITBLOCK)] = true
+	}
+	for _, bn := range atxn.allocBnums {
+		blks[atxn.Super.BitmapBlockStart()+common.Bnum(uint64(bn)/common.NBITBLOCK)] = true
+	}
+	for _, bn := range atxn.freeBnums {
+		blks[atxn.Super.BitmapBlockStart()+common.Bnum(uint64(bn)/common.NBITBLOCK)] = true
+	}
+	return uint64(len(blks))
+}
+
 func (atxn *AllocTxn) AssertValidBlock(blkno common.Bnum) {
 	if blkno > 0 && (blkno < atxn.Super.DataStart() ||
 		blkno >= atxn.Super.MaxBnum()) {
